@@ -7,7 +7,7 @@ from nvlib import extract as X
 from nvlib.check import Prop
 
 WRAP = ["-Wl,--wrap=epoll_wait", "-Wl,--wrap=time", "-Wl,--wrap=platform_timer_start"]
-RESET_DURATION = 60          # ResetDuration of the verification configuration (must stay below the sweep period)
+RESET_DURATION = 2           # ResetDuration: next_reset = now + 1 + rand() % 1 is deterministic
 HEAD = ["load reg /c09/reg"]
 TAIL = ["step idle", "step idle", "step idle", "step idle", "step tick:40", "step tick:40", "step idle", "step idle"]
 
@@ -24,8 +24,8 @@ class C09(Prop):
     consts = [("logCatches", "NV_LOG_CATCHES"), ("numConsts", "5")]
     const_headers = ["lib/efuns/options.h"]
     const_prelude = "#ifdef LOG_CATCHES\n#define NV_LOG_CATCHES 1\n#else\n#define NV_LOG_CATCHES 0\n#endif\n"
-    quick_n = 170
-    thorough_n = 1500
+    quick_n = 500
+    thorough_n = 4000
     search_n = 300
     design_ref = "5/C09"
     technique = ("Lean 4 proof (invariant over all finite event histories x error injections, induction on the history and on "
